@@ -592,21 +592,19 @@ Theorem disposer_count_law : forall c ops,
 Proof.
   intros c ops. unfold krun_case, kstate, kfinal.
   assert (W : wf []) by constructor.
-  repeat split.
+  split; [|split; [|split]].
   - intros D. assert (A := krun_account c ops [] W ltac:(congruence) ltac:(congruence)).
     destruct (krun c [] ops) as [s outs]; simpl in *. rewrite D in *. lia.
-  - destruct (krun c [] ops); rewrite H; auto.
-  - assert (A := krun_account c ops [] W ltac:(congruence) ltac:(auto)).
-    destruct (krun c [] ops) as [s outs]; simpl in *. rewrite H in *. lia.
-  - destruct (krun c [] ops) as [s outs] eqn:E; simpl.
+  - intros D R. assert (A := krun_account c ops [] W ltac:(congruence) ltac:(auto)).
+    destruct (krun c [] ops) as [s outs]; simpl in *. rewrite D in *. split; [auto | lia].
+  - intros D. rewrite D. destruct (krun c [] ops) as [s outs] eqn:E; simpl. split; auto.
     assert (G : forall ops s, sum_disp (snd (krun c s ops)) = 0%nat).
     { induction ops0 as [|o ops0 IH]; intros s0; simpl; auto.
       assert (Z0 : ko_disp (snd (kstep c s0 o)) = 0%nat).
-      { destruct o; simpl; unfold mhas, d_gc, d_clear; rewrite H;
+      { destruct o; simpl; unfold mhas, d_gc, d_clear; rewrite ?D;
           repeat match goal with |- context [match ?x with _ => _ end] => destruct x end; auto. }
       destruct (kstep c s0 o) as [s1 r]; simpl in *. specialize (IH s1). destruct (krun c s1 ops0); simpl in *. lia. }
     specialize (G ops []). rewrite E in G; auto.
-  - destruct (krun c [] ops); rewrite H; auto.
   - assert (G : forall ops s, sum_held (snd (krun c s ops)) = 0%nat).
     { induction ops0 as [|o ops0 IH]; intros s0; simpl; auto.
       assert (Z0 : ko_held (snd (kstep c s0 o)) = 0%nat).
@@ -630,4 +628,406 @@ Theorem disposer_per_op : forall c s,
 Proof.
   intros c s D Hwf; simpl; unfold mhas, d_gc, d_clear; rewrite D.
   repeat split; intros; destruct (mfind k s); simpl; auto; try destruct (kc_replace c); auto; destruct a; auto.
+Qed.
+
+(** ** Queues, stacks, deques, priority queues *)
+
+Theorem q_size_empty_clear : forall c s,
+  (qc_counted c = true -> qo_res (snd (qstep c s ASize)) = QNat (length (q_items s))) /\
+  (qc_counted c = false -> qo_res (snd (qstep c s ASize)) = QNat 0) /\
+  (qc_counted c = true \/ qc_empty_by_size c = false ->
+     (qo_res (snd (qstep c s AEmpty)) = QR (RBool true) <-> q_items s = [])) /\
+  (qc_counted c = true ->
+     (qo_res (snd (qstep c s AEmpty)) = QR (RBool true) <-> qo_res (snd (qstep c s ASize)) = QNat 0)) /\
+  q_items (fst (qstep c s AClear)) = [] /\
+  q_items (fst (qstep c s ASize)) = q_items s /\ q_items (fst (qstep c s AEmpty)) = q_items s.
+Proof.
+  intros c s; simpl. repeat split.
+  - intros ->; auto.
+  - intros ->; auto.
+  - assert (E : qc_empty_by_size c && negb (qc_counted c) = false) by (destruct H as [-> | ->]; [apply andb_false_r | auto]).
+    rewrite E. destruct (q_items s); auto; discriminate.
+  - assert (E : qc_empty_by_size c && negb (qc_counted c) = false) by (destruct H as [-> | ->]; [apply andb_false_r | auto]).
+    rewrite E. intros ->; auto.
+  - rewrite H, andb_false_r. destruct (q_items s); auto; discriminate.
+  - rewrite H, andb_false_r. destruct (q_items s); simpl; auto; discriminate.
+  - destruct (qc_disp c); simpl; auto. destruct (q_items s) eqn:E; simpl; auto.
+Qed.
+
+(** what enters and what leaves, in order *)
+Definition pushed_of (o : aop) (r : qout) : list Z :=
+  match o, qo_res r with
+  | APush x, QR (RBool true) => [x]
+  | APushFront x, QR (RBool true) => [x]
+  | _, _ => []
+  end.
+
+Definition left_of (s : qst) (o : aop) (r : qout) : list Z :=
+  match o, qo_res r with
+  | APop, QR (RVal (Some x)) => [x]
+  | APopBack, QR (RVal (Some x)) => [x]
+  | AClear, _ => q_items s
+  | _, _ => []
+  end.
+
+Fixpoint qpushed (c : qcfg) (s : qst) (ops : list aop) : list Z :=
+  match ops with
+  | [] => []
+  | o :: ops' => let (s1, r) := qstep c s o in pushed_of o r ++ qpushed c s1 ops'
+  end.
+
+Fixpoint qleft (c : qcfg) (s : qst) (ops : list aop) : list Z :=
+  match ops with
+  | [] => []
+  | o :: ops' => let (s1, r) := qstep c s o in left_of s o r ++ qleft c s1 ops'
+  end.
+
+Lemma fifo_step_order : forall c s o, qc_kind c = QFifo ->
+  q_items s ++ pushed_of o (snd (qstep c s o)) = left_of s o (snd (qstep c s o)) ++ q_items (fst (qstep c s o)).
+Proof.
+  intros c [l p n] o K; destruct o; simpl; unfold core_push, core_pop, has_room; rewrite ?K; simpl.
+  - destruct (qc_cap c) as [cap|]; simpl.
+    + destruct (length l <? cap)%nat; simpl; auto using app_nil_r.
+    + reflexivity.
+  - destruct l as [|x l]; simpl; auto. destruct (qc_disp c); simpl; now rewrite app_nil_r.
+  - now rewrite app_nil_r.
+  - now rewrite app_nil_r.
+  - now rewrite app_nil_r.
+  - now rewrite app_nil_r.
+  - destruct (qc_disp c); simpl; rewrite ?app_nil_r; auto. destruct l; simpl; rewrite ?app_nil_r; auto.
+Qed.
+
+(** FIFO: the items that left the queue (by pop, or all at once by clear), followed by what is still inside, are
+    exactly the successfully pushed items in push order - for every operation sequence, bounded or not *)
+Theorem fifo_pop_order : forall c ops s, qc_kind c = QFifo ->
+  q_items s ++ qpushed c s ops = qleft c s ops ++ q_items (fst (qrun c s ops)).
+Proof.
+  intros c ops; induction ops as [|o ops IH]; intros s K; simpl.
+  - now rewrite app_nil_r.
+  - assert (A := fifo_step_order c s o K).
+    destruct (qstep c s o) as [s1 r]; simpl in *. specialize (IH s1 K).
+    destruct (qrun c s1 ops) as [s2 rs]; simpl in *.
+    rewrite app_assoc, A, <- app_assoc, IH, app_assoc. reflexivity.
+Qed.
+
+(** LIFO: a push followed by any balanced sequence (every pop matched by an earlier push of that sequence) and a
+    pop: the pop returns the pushed value and the stack is what it was *)
+Inductive balanced : list aop -> Prop :=
+| bal_nil : balanced []
+| bal_obs : forall o b, (o = ASize \/ o = AEmpty) -> balanced b -> balanced (o :: b)
+| bal_pair : forall x b1 b2, balanced b1 -> balanced b2 -> balanced (APush x :: b1 ++ APop :: b2).
+
+Lemma qrun_app : forall c ops1 ops2 s,
+  fst (qrun c s (ops1 ++ ops2)) = fst (qrun c (fst (qrun c s ops1)) ops2).
+Proof.
+  intros c ops1; induction ops1 as [|o ops1 IH]; intros ops2 s; simpl; auto.
+  destruct (qstep c s o) as [s1 r]. specialize (IH ops2 s1).
+  destruct (qrun c s1 (ops1 ++ ops2)); destruct (qrun c s1 ops1); simpl in *; auto.
+Qed.
+
+Lemma stack_push_pop : forall c s x, qc_kind c = QStack -> qc_cap c = None ->
+  q_items (fst (qstep c s (APush x))) = x :: q_items s /\
+  qo_res (snd (qstep c s (APush x))) = QR (RBool true).
+Proof. intros c [l p n] x K C; simpl; unfold core_push, has_room; rewrite K, C; simpl; auto. Qed.
+
+Lemma stack_pop_top : forall c s x l, qc_kind c = QStack -> q_items s = x :: l ->
+  q_items (fst (qstep c s APop)) = l /\ qo_res (snd (qstep c s APop)) = QR (RVal (Some x)).
+Proof. intros c [l0 p n] x l K E; simpl in *; subst; unfold core_pop; rewrite K; simpl. destruct (qc_disp c); auto. Qed.
+
+Lemma qrun_cons : forall c o ops s, fst (qrun c s (o :: ops)) = fst (qrun c (fst (qstep c s o)) ops).
+Proof. intros; simpl. destruct (qstep c s o) as [s1 r]; simpl. destruct (qrun c s1 ops); auto. Qed.
+
+Lemma balanced_restores : forall c b, balanced b -> qc_kind c = QStack -> qc_cap c = None ->
+  forall s, q_items (fst (qrun c s b)) = q_items s.
+Proof.
+  intros c b H K C; induction H as [|o b Ho H IH|x b1 b2 H1 IH1 H2 IH2]; intros s; auto.
+  - rewrite qrun_cons, IH. destruct Ho as [-> | ->]; destruct s; reflexivity.
+  - rewrite qrun_cons, qrun_app, qrun_cons, IH2.
+    destruct (stack_push_pop c s x K C) as [P _].
+    set (s1 := fst (qstep c s (APush x))) in *.
+    specialize (IH1 s1). rewrite P in IH1.
+    destruct (stack_pop_top c _ x (q_items s) K IH1) as [Q _]. exact Q.
+Qed.
+
+Theorem stack_pop_order : forall c s x mid, qc_kind c = QStack -> qc_cap c = None -> balanced mid ->
+  let s1 := fst (qrun c s (APush x :: mid)) in
+  qo_res (snd (qstep c s1 APop)) = QR (RVal (Some x)) /\ q_items (fst (qstep c s1 APop)) = q_items s.
+Proof.
+  intros c s x mid K C B s1. unfold s1; clear s1. rewrite qrun_cons.
+  destruct (stack_push_pop c s x K C) as [P _].
+  assert (R := balanced_restores c mid B K C (fst (qstep c s (APush x)))). rewrite P in R.
+  destruct (stack_pop_top c _ x (q_items s) K R); auto.
+Qed.
+
+(** pop on the empty container *)
+Theorem pop_empty : forall c s, q_items s = [] ->
+  qo_res (snd (qstep c s APop)) = QR (RVal None) /\ q_items (fst (qstep c s APop)) = [].
+Proof. intros c [l p n] E; simpl in *; subst; unfold core_pop; destruct (qc_kind c); simpl; auto. Qed.
+
+(** priority queue: pop returns a greatest element and removes exactly one occurrence of it *)
+Lemma remove_one_perm : forall m l, In m l -> Permutation l (m :: remove_one m l).
+Proof.
+  intros m l; induction l as [|y l IH]; simpl; [tauto|].
+  destruct (Z.eqb m y) eqn:E.
+  - apply Z.eqb_eq in E; subst; auto.
+  - intros [->|H]; [rewrite Z.eqb_refl in E; discriminate|]. rewrite perm_swap. constructor; auto.
+Qed.
+
+Theorem pq_pop_is_max : forall c s, qc_kind c = QPrio ->
+  let l := q_items s in let l' := q_items (fst (qstep c s APop)) in
+  (l = [] -> qo_res (snd (qstep c s APop)) = QR (RVal None)) /\
+  (l <> [] -> exists m, qo_res (snd (qstep c s APop)) = QR (RVal (Some m)) /\
+                        In m l /\ (forall x, In x l -> x <= m) /\ Permutation l (m :: l')).
+Proof.
+  intros c [l p n] K; simpl; unfold core_pop; rewrite K; simpl. split.
+  - intros ->; auto.
+  - destruct l as [|x l]; [congruence|]. intros _. simpl.
+    destruct (zmax_spec l x) as (H1 & H2 & H3). set (m := zmax x l) in *.
+    assert (Hin : In m (x :: l)) by (destruct H1 as [-> | H1]; simpl; auto).
+    exists m. assert (P := remove_one_perm m (x :: l) Hin). simpl in P.
+    destruct (qc_disp c); simpl; (split; [auto|]; split; [auto|]; split; [|exact P]);
+      intros y [<-|Hy]; auto.
+Qed.
+
+(** bounded containers: a push fails exactly when [cap] items are stored, and the bound is never exceeded *)
+Theorem bounded_push : forall c s x cap, qc_cap c = Some cap -> (length (q_items s) <= cap)%nat ->
+  (qo_res (snd (qstep c s (APush x))) = QR (RBool false) <-> length (q_items s) = cap) /\
+  (qo_res (snd (qstep c s (APush x))) = QR (RBool true) <-> (length (q_items s) < cap)%nat) /\
+  (qo_res (snd (qstep c s (APush x))) = QR (RBool false) -> q_items (fst (qstep c s (APush x))) = q_items s) /\
+  (qo_res (snd (qstep c s (APush x))) = QR (RBool true) ->
+     length (q_items (fst (qstep c s (APush x)))) = S (length (q_items s))).
+Proof.
+  intros c [l p n] x cap C L; simpl in *; unfold core_push, has_room; rewrite C.
+  destruct (qc_kind c); simpl; destruct (length l <? cap)%nat eqn:E;
+    [apply Nat.ltb_lt in E | apply Nat.ltb_ge in E | apply Nat.ltb_lt in E | apply Nat.ltb_ge in E
+    | apply Nat.ltb_lt in E | apply Nat.ltb_ge in E | apply Nat.ltb_lt in E | apply Nat.ltb_ge in E];
+    simpl; rewrite ?app_length; simpl;
+    (repeat split; intros; auto; try discriminate; try lia).
+Qed.
+
+Lemma remove_one_length_le : forall m l, (length (remove_one m l) <= length l)%nat.
+Proof. intros m l; induction l as [|z l IH]; simpl; auto. destruct (Z.eqb m z); simpl; lia. Qed.
+
+Lemma qstep_bounded : forall c cap s o, qc_cap c = Some cap ->
+  (length (q_items s) <= cap)%nat -> (length (q_items (fst (qstep c s o))) <= cap)%nat.
+Proof.
+  intros c cap [l p n] o C L; simpl in L; destruct o; simpl; unfold core_push, core_pop, has_room; rewrite ?C.
+  - destruct (qc_kind c); simpl; destruct (length l <? cap)%nat eqn:E; simpl; rewrite ?app_length; simpl; auto;
+      apply Nat.ltb_lt in E; lia.
+  - destruct (qc_kind c); simpl.
+    + destruct l as [|y l]; simpl in *; auto. destruct (qc_disp c); simpl; lia.
+    + destruct l as [|y l]; simpl in *; auto. destruct (qc_disp c); simpl; lia.
+    + destruct l as [|y l]; simpl in *; auto. destruct (qc_disp c); simpl; lia.
+    + destruct l as [|y l]; simpl in *; auto.
+      assert (A := remove_one_length_le (zmax y l) (y :: l)). simpl in A.
+      destruct (Z.eqb (zmax y l) y); destruct (qc_disp c); simpl in *; lia.
+  - destruct (qc_kind c); simpl; auto. destruct (length l <? cap)%nat eqn:E; simpl; auto. apply Nat.ltb_lt in E; lia.
+  - destruct (qc_kind c); simpl; auto. destruct (rev l) as [|z r] eqn:E; simpl; [lia|].
+    assert (length l = S (length r)) by (rewrite <- (rev_involutive l), E; simpl; rewrite app_length, rev_length; simpl; lia).
+    rewrite rev_length; lia.
+  - auto.
+  - auto.
+  - destruct (qc_disp c); simpl; try lia. destruct l; simpl in *; lia.
+Qed.
+
+Theorem bounded_never_exceeds : forall c cap ops s, qc_cap c = Some cap ->
+  (length (q_items s) <= cap)%nat -> (length (q_items (fst (qrun c s ops))) <= cap)%nat.
+Proof.
+  intros c cap ops; induction ops as [|o ops IH]; intros s C L; auto.
+  rewrite qrun_cons. apply IH; auto. now apply qstep_bounded.
+Qed.
+
+(** deque: both ends *)
+Theorem deque_ends : forall c s x, qc_kind c = QDeque -> qc_cap c = None ->
+  (* push_front then pop_front, push_back then pop_back return the pushed value and restore the contents *)
+  (let s1 := fst (qstep c s (APushFront x)) in
+     qo_res (snd (qstep c s1 APop)) = QR (RVal (Some x)) /\ q_items (fst (qstep c s1 APop)) = q_items s) /\
+  (let s1 := fst (qstep c s (APush x)) in
+     qo_res (snd (qstep c s1 APopBack)) = QR (RVal (Some x)) /\ q_items (fst (qstep c s1 APopBack)) = q_items s) /\
+  (* push_back / pop_front is the FIFO step, push_front / pop_front the stack step *)
+  q_items (fst (qstep c s (APush x))) = fst (fifo_step (q_items s) (Enq x)) /\
+  q_items (fst (qstep c s APop)) = fst (fifo_step (q_items s) Deq) /\
+  q_items (fst (qstep c s (APushFront x))) = fst (stack_step (q_items s) (Push x)) /\
+  (* pop_back is pop_front of the mirrored deque *)
+  q_items (fst (qstep c s APopBack)) = rev (fst (fifo_step (rev (q_items s)) Deq)).
+Proof.
+  intros c [l p n] x K C; simpl; unfold core_push, core_pop, has_room; rewrite K, C; simpl.
+  repeat split; auto.
+  - destruct (qc_disp c); auto.
+  - destruct (qc_disp c); auto.
+  - rewrite rev_app_distr; simpl; auto.
+  - rewrite rev_app_distr; simpl. now rewrite rev_involutive.
+  - destruct l; simpl; auto. destruct (qc_disp c); auto.
+  - destruct (rev l); simpl; auto.
+Qed.
+
+(** *** Disposer accounting of the intrusive queues and stacks *)
+
+Definition sum_qdisp (outs : list qout) : nat := fold_right (fun r n => (qo_disp r + n)%nat) 0%nat outs.
+
+Definition handed_q (o : aop) (r : qout) : nat :=
+  match o, qo_res r with
+  | APop, QR (RVal (Some _)) => 1%nat
+  | APopBack, QR (RVal (Some _)) => 1%nat
+  | _, _ => 0%nat
+  end.
+
+Fixpoint qhanded (c : qcfg) (s : qst) (ops : list aop) : nat :=
+  match ops with
+  | [] => 0%nat
+  | o :: ops' => let (s1, r) := qstep c s o in (handed_q o r + qhanded c s1 ops')%nat
+  end.
+
+Lemma core_push_len : forall c l x,
+  (snd (core_push c l x) = RBool true /\ length (fst (core_push c l x)) = S (length l)) \/
+  (snd (core_push c l x) = RBool false /\ fst (core_push c l x) = l).
+Proof.
+  intros c l x; unfold core_push, has_room.
+  destruct (qc_kind c), (qc_cap c) as [cap|]; simpl; try destruct (length l <? cap)%nat; simpl;
+    rewrite ?app_length; simpl; auto; left; split; auto; lia.
+Qed.
+
+Lemma core_pop_len : forall c l,
+  (exists x, snd (core_pop c l) = RVal (Some x) /\ S (length (fst (core_pop c l))) = length l) \/
+  (snd (core_pop c l) = RVal None /\ fst (core_pop c l) = [] /\ l = []).
+Proof.
+  intros c l; unfold core_pop. destruct (qc_kind c); simpl; destruct l as [|y l]; simpl; eauto.
+  left. exists (zmax y l). split; auto.
+  destruct (zmax_spec l y) as (H1 & _ & _).
+  assert (Hin : In (zmax y l) (y :: l)) by (destruct H1 as [-> | H1]; simpl; auto).
+  assert (P := Permutation_length (remove_one_perm _ _ Hin)). simpl in P. lia.
+Qed.
+
+(** one step: conservation of items, push counter, and the disposer calls by policy *)
+Lemma qstep_account : forall c s o,
+  let s1 := fst (qstep c s o) in let r := snd (qstep c s o) in
+  (length (q_items s) + length (pushed_of o r) = length (left_of s o r) + length (q_items s1))%nat /\
+  q_npush s1 = (q_npush s + length (pushed_of o r))%nat /\
+  (qc_disp c = QDLag -> qc_kind c <> QDeque ->
+     (qo_disp r + b2n (q_pending s1) = b2n (q_pending s) + length (left_of s o r))%nat) /\
+  (qc_disp c = QDClear \/ qc_disp c = QDManual ->
+     (qo_disp r + handed_q o r = length (left_of s o r))%nat /\ q_pending s1 = q_pending s) /\
+  (qc_disp c = QDNone \/ qc_disp c = QDTotal -> qo_disp r = 0%nat).
+Proof.
+  intros c [l p n] o; destruct o; simpl.
+  - (* push *) destruct (core_push_len c l x) as [[R L]|[R L]]; destruct (core_push c l x) as [l' r]; simpl in *; subst;
+      repeat split; intros; simpl; try lia.
+  - (* pop *) destruct (core_pop_len c l) as [(x & R & L)|(R & L & E)]; destruct (core_pop c l) as [l' r]; simpl in *; subst; simpl.
+    + destruct (qc_disp c) eqn:D; simpl; repeat split; intros; try congruence; simpl; try lia;
+        try (destruct H; congruence); destruct p; simpl; lia.
+    + repeat split; intros; simpl; auto; lia.
+  - (* push_front *) destruct (qc_kind c); simpl; try (repeat split; intros; simpl; lia).
+    unfold has_room. destruct (qc_cap c) as [cap|]; simpl; try destruct (length l <? cap)%nat; simpl;
+      repeat split; intros; simpl; lia.
+  - (* pop_back *) destruct (qc_kind c); simpl; try (repeat split; intros; simpl; lia).
+    destruct (rev l) as [|z r] eqn:E; simpl.
+    + assert (l = []) by (rewrite <- (rev_involutive l), E; auto). subst. repeat split; intros; simpl; lia.
+    + assert (length l = S (length r)) by (rewrite <- (rev_involutive l), E; simpl; rewrite app_length, rev_length; simpl; lia).
+      rewrite rev_length. repeat split; intros; simpl; try lia. congruence.
+  - repeat split; intros; simpl; lia.
+  - repeat split; intros; simpl; lia.
+  - (* clear *) destruct (qc_disp c) eqn:D; simpl; repeat split; intros; try congruence; simpl; try lia;
+      try (destruct H; congruence); destruct l; simpl; destruct p; simpl; lia.
+Qed.
+
+Lemma qrun_account : forall c ops s,
+  let sf := fst (qrun c s ops) in let outs := snd (qrun c s ops) in
+  (length (q_items s) + length (qpushed c s ops) = length (qleft c s ops) + length (q_items sf))%nat /\
+  q_npush sf = (q_npush s + length (qpushed c s ops))%nat /\
+  (qc_disp c = QDLag -> qc_kind c <> QDeque ->
+     (sum_qdisp outs + b2n (q_pending sf) = b2n (q_pending s) + length (qleft c s ops))%nat) /\
+  (qc_disp c = QDClear \/ qc_disp c = QDManual -> (sum_qdisp outs + qhanded c s ops = length (qleft c s ops))%nat) /\
+  (qc_disp c = QDNone \/ qc_disp c = QDTotal -> sum_qdisp outs = 0%nat).
+Proof.
+  intros c ops; induction ops as [|o ops IH]; intros s; simpl.
+  - repeat split; intros; lia.
+  - destruct (qstep_account c s o) as (A & B & C & D & E).
+    destruct (qstep c s o) as [s1 r]; simpl in *.
+    destruct (IH s1) as (A' & B' & C' & D' & E'). destruct (qrun c s1 ops) as [s2 rs]; simpl in *.
+    rewrite !app_length. repeat split; try intros H.
+    + lia.
+    + lia.
+    + intros H0. specialize (C H H0); specialize (C' H H0); lia.
+    + destruct (D H) as [D1 D2]; specialize (D' H); lia.
+    + specialize (E H); specialize (E' H); lia.
+Qed.
+
+(** Intrusive queues and stacks: what becomes of every item that was pushed, by policy. *)
+Theorem queue_disposer_law : forall c ops,
+  let sf := fst (qrun c qinit ops) in
+  let outs := fst (qrun_case c ops) in let fin := snd (qrun_case c ops) in
+  let npush := length (qpushed c qinit ops) in
+  (* MSQueue family: by the time the queue is destroyed every pushed item has been disposed exactly once *)
+  (qc_disp c = QDLag -> qc_kind c <> QDeque -> (sum_qdisp outs + fin = npush)%nat) /\
+  (* pop hands the item back; clear() and the destructor dispose the rest *)
+  (qc_disp c = QDClear -> (sum_qdisp outs + fin + qhanded c qinit ops = npush)%nat) /\
+  (qc_disp c = QDManual -> fin = 0%nat /\ (sum_qdisp outs + length (q_items sf) + qhanded c qinit ops = npush)%nat) /\
+  (qc_disp c = QDTotal -> sum_qdisp outs = 0%nat /\ fin = npush) /\
+  (qc_disp c = QDNone -> sum_qdisp outs = 0%nat /\ fin = 0%nat).
+Proof.
+  intros c ops; unfold qrun_case, qfinal.
+  destruct (qrun_account c ops qinit) as (A & B & C & D & E).
+  destruct (qrun c qinit ops) as [sf outs]; simpl in *.
+  repeat split; intros H; rewrite ?H; simpl.
+  - intros H0. specialize (C H H0). lia.
+  - specialize (D (or_introl H)). lia.
+  - auto.
+  - specialize (D (or_intror H)). lia.
+  - apply E; auto.
+  - lia.
+  - apply E; auto.
+  - auto.
+Qed.
+
+(** ** SegmentedQueue *)
+
+Definition seg_items (segs : list seg) : list Z := concat (map snd segs).
+
+Lemma seg_count_items : forall segs, seg_count segs = length (seg_items segs).
+Proof.
+  unfold seg_count, seg_items; induction segs as [|[u l] segs IH]; simpl; auto. rewrite app_length; lia.
+Qed.
+
+Lemma seg_push_items : forall q segs x, seg_items (seg_push q segs x) = seg_items segs ++ [x].
+Proof.
+  intros q segs x; unfold seg_items; induction segs as [|[u l] segs IH]; simpl; auto.
+  destruct segs as [|sg segs]; simpl in *.
+  - destruct (u <? q)%nat; simpl; rewrite ?app_nil_r; auto.
+  - rewrite IH, app_assoc; auto.
+Qed.
+
+Lemma seg_head_items : forall q segs, seg_items (seg_head q segs) = seg_items segs.
+Proof.
+  intros q segs; unfold seg_items; induction segs as [|[u l] segs IH]; simpl; auto.
+  destruct l; auto. destruct (u <? q)%nat; simpl; auto.
+Qed.
+
+(** push appends at the end; an accepted pop removes one occurrence of an item that is present, and "empty" is
+    accepted only when the head segment holds nothing; the item count follows *)
+Theorem segq_laws : forall q segs,
+  (forall x, snd (segq_step q segs (SPush x)) = SOk /\
+             seg_items (fst (segq_step q segs (SPush x))) = seg_items segs ++ [x]) /\
+  (forall x, snd (segq_step q segs (SPop (Some x))) = SOk ->
+             In x (seg_items segs) /\
+             Permutation (seg_items segs) (x :: seg_items (fst (segq_step q segs (SPop (Some x)))))) /\
+  (snd (segq_step q segs (SPop None)) = SOk ->
+     match seg_head q segs with [] => True | (u, l) :: _ => l = [] end) /\
+  snd (segq_step q segs SSize) = SNat (length (seg_items segs)) /\
+  (snd (segq_step q segs SEmpty) = SBool true <-> seg_items segs = []) /\
+  seg_items (fst (segq_step q segs SClear)) = [].
+Proof.
+  intros q segs; repeat split.
+  - simpl; apply seg_push_items.
+  - simpl in H. rewrite <- (seg_head_items q segs). destruct (seg_head q segs) as [|[u l] rest]; [discriminate|].
+    destruct (zmem x l) eqn:E; [|discriminate]. unfold seg_items; simpl. apply in_or_app; left.
+    unfold zmem in E. apply existsb_exists in E. destruct E as (y & Hy & Ey). apply Z.eqb_eq in Ey; subst; auto.
+  - simpl in *. rewrite <- (seg_head_items q segs). destruct (seg_head q segs) as [|[u l] rest]; [discriminate|].
+    destruct (zmem x l) eqn:E; [|discriminate]. simpl. unfold seg_items; simpl.
+    unfold zmem in E. apply existsb_exists in E. destruct E as (y & Hy & Ey). apply Z.eqb_eq in Ey; subst y.
+    rewrite (remove_one_perm x l Hy) at 1. reflexivity.
+  - simpl. destruct (seg_head q segs) as [|[u l] rest]; auto. destruct l; auto; discriminate.
+  - simpl. now rewrite seg_count_items.
+  - simpl. rewrite seg_count_items. destruct (seg_items segs); simpl; [auto | discriminate].
+  - simpl. rewrite seg_count_items. intros ->; auto.
+  - simpl. rewrite seg_head_items. unfold seg_items. induction segs as [|[u l] segs IH]; simpl; auto.
 Qed.
